@@ -29,7 +29,7 @@ def gen(rng, tier, no, wide=False):
         ev = case["ranks"][r0]
         xs = [e for e in ev if e.get("ph") == "X" and "dur" in e]
         lo = min(e["ts"] for e in xs)
-        host = next(e for e in xs if e.get("cat") == "cpu_op")
+        host = next((e for e in xs if e.get("cat") == "cpu_op"), None) or next(e for e in xs if "stream" not in (e.get("args") or {}))
         for e in ev:
             if "ts" in e:
                 e["ts"] += 3400      # room for the early operators; they precede the first profiler step, so trimming keeps them
